@@ -93,12 +93,14 @@ def run_impl(which, B, **kw):
 def both_impls(B):
     """Run both implementations (Python one with max_iter=PY_SWEEPS, compiled one with its defaults).
     -> dict name -> (T, pi, warned), list of class labels."""
-    res = {"py": run_impl("py", B, max_iter=PY_SWEEPS), "pyx": run_impl("pyx", B)}
+    res = {"pyx": run_impl("pyx", B)}
+    res["py"] = run_impl("py", B, max_iter=PY_SWEEPS)
     return res, ["py_stopped_within_%d_sweeps=%s" % (PY_SWEEPS, not res["py"][2])]
 
 
-def check_model(B, T, pi, who):
-    """What every returned model must satisfy, converged or not."""
+def check_model(B, T, pi, who, warned=False):
+    """What every returned model must satisfy, converged or not (the support is only asserted for runs that did
+    not warn: far from convergence individual x_ij can underflow to zero)."""
     n = B.shape[0]
     require(T.shape == (n, n) and pi.shape == (n,), "%s: wrong output shapes" % who, T=T.shape, pi=pi.shape)
     require(np.all(np.isfinite(T)) and np.all(np.isfinite(pi)), "%s: model not finite" % who, T=T.tolist(),
@@ -111,7 +113,7 @@ def check_model(B, T, pi, who):
     require(R.detailed_balance_residual(T, pi) <= TOL_DB * float(F.max()) + 1e-15, "%s: detailed balance violated" % who,
             residual=R.detailed_balance_residual(T, pi), T=T.tolist(), pi=pi.tolist())
     S = (B + B.T) > 0
-    require(np.array_equal(T > 0, S), "%s: support of T differs from the support of C + C^T" % who,
+    require(warned or np.array_equal(T > 0, S), "%s: support of T differs from the support of C + C^T" % who,
             T=T.tolist(), C=B.tolist())
 
 
@@ -162,10 +164,11 @@ def run_terminates_builder(case):
     require(type(T_raw) is type(x), "builders.mle: T not returned in the container passed in", got=type(T_raw).__name__,
             want=type(x).__name__)
     require(np.array_equal(R.to_dense(C_out), A), "builders.mle: returned counts differ from the input")
+    warned = any("converge" in str(wi.message).lower() for wi in w)
     if case["eq"]:
         require(pi_raw is not None, "populations requested but None returned")
     if pi_raw is not None:
-        check_model(B, T, np.asarray(pi_raw, dtype=float).ravel(), "builders.mle")
+        check_model(B, T, np.asarray(pi_raw, dtype=float).ravel(), "builders.mle", warned)
     else:
         require(np.all(np.isfinite(T)) and np.all(T >= 0) and np.max(np.abs(T.sum(axis=1) - 1)) <= TOL_ROW,
                 "builders.mle: T is not row-stochastic", T=T.tolist())
@@ -173,7 +176,6 @@ def run_terminates_builder(case):
     require(Tpy is not None, "_prinz_mle_py failed on the dense counts although builders.mle returned")
     require(np.max(np.abs(T - Tpy)) <= 1e-12, "builders.mle(container) differs from the estimator on the dense counts",
             got=T.tolist(), want=Tpy.tolist())
-    warned = any("converge" in str(x.message).lower() for x in w)
     return info(case, ["eq=%s" % case["eq"], "warned=%s" % warned])
 
 
@@ -182,7 +184,7 @@ def run_terminates_impls(case):
     B = R.case_matrix(case["mat"]).astype(float)
     res, extra = both_impls(B)
     for who, (T, pi, warned) in res.items():
-        check_model(B, T, pi, who)
+        check_model(B, T, pi, who, warned)
         extra.append("%s_warned=%s" % (who, warned))
     return info(case, extra)
 
@@ -217,7 +219,7 @@ def run_likelihood(case):
     Tf, _, fconv = R.ref_mle_fixed_point(B, max_iter=5000)
     Lt, Lf = R.loglik(B, Tt), R.loglik(B, Tf)
     for who, (T, pi, warned) in res.items():
-        check_model(B, T, pi, who)
+        check_model(B, T, pi, who, warned)
         if warned:
             extra.append("%s_warned=True" % who)
             continue
@@ -246,7 +248,7 @@ def run_prinz(case):
     tot = float(B.sum())
     c = B.sum(axis=1)
     for who, (T, pi, warned) in res.items():
-        check_model(B, T, pi, who)
+        check_model(B, T, pi, who, warned)
         if warned:
             extra.append("%s_warned=True" % who)
             continue
@@ -264,8 +266,8 @@ def run_agree(case):
     B = R.case_matrix(case["mat"]).astype(float)
     res, extra = both_impls(B)
     (Tp, pp, wp), (Tc, pc, wc) = res["py"], res["pyx"]
-    check_model(B, Tp, pp, "py")
-    check_model(B, Tc, pc, "pyx")
+    check_model(B, Tp, pp, "py", wp)
+    check_model(B, Tc, pc, "pyx", wc)
     if wp or wc:
         # at least one did not converge: agreement "up to the convergence tolerance" is undefined
         return info(case, extra + ["agree=not_asserted(warned)"])
@@ -303,7 +305,7 @@ def run_nonconvergence(case):
     tot = float(B.sum())
     for who in ("py", "pyx"):
         T, pi, warned = run_impl(who, B, max_iter=k)
-        check_model(B, T, pi, who)
+        check_model(B, T, pi, who, warned)
         converged = R.prinz_residual(B, T, pi) <= TOL_R * tot
         require(warned or converged, "%s: stopped at max_iter=%d unconverged without a ConvergenceWarning" % (who, k),
                 residual=R.prinz_residual(B, T, pi), total=tot)
@@ -356,4 +358,33 @@ CLAUSES = [
     Clause("nonconvergence_warns", mle_case(7, with_max_iter=True), run_nonconvergence, quick=400, thorough=3000),
     Clause("all_3state", mle_case(3), run_all_small, quick=0, thorough=0, exhaustive=exhaustive_small),
 ]
-MATCHERS = {}
+
+
+def _one_directional_max(case):
+    A = R.case_matrix(case["mat"]).astype(float)
+    m = (A > 0) & (A.T == 0) & ~np.eye(len(A), dtype=bool)
+    return float(A[m].max()) if m.any() else 0.0
+
+
+def match_mle_roundoff_breakdown(case, exc):
+    """Known finding: on strongly connected matrices with large one-directional counts (c_ij >= 20, c_ji = 0, n >= 5)
+    the populations of some states shrink by > 16 orders of magnitude; the incrementally updated row sums then go
+    (slightly) negative and the iteration dies in its own `assert c <= 0` (or ends with NaN rows).  Only that
+    AssertionError inside the estimator is matched - any oracle Violation, TypeError, ValueError ... is still reported."""
+    import traceback
+    if type(exc) is not AssertionError:
+        return False
+    frames = [fr for fr in traceback.extract_tb(exc.__traceback__) if "/enspara/" in fr.filename or
+              fr.filename.endswith("libmsm.pyx")]
+    if not frames or frames[-1].name.split(".")[-1] not in ("_mle_prinz_dense", "_prinz_mle_py"):
+        return False
+    last = frames[-1]
+    msg = str(exc)
+    if last.name.endswith("_prinz_mle_py") and (last.line or "").strip() != "assert c <= 0" and "nan" not in msg:
+        return False
+    if msg and "nan" not in msg:
+        return False
+    return case["mat"]["n"] >= 5 and _one_directional_max(case) >= 20
+
+
+MATCHERS = {"mle_roundoff_breakdown": match_mle_roundoff_breakdown}
